@@ -166,12 +166,14 @@ PROPS = {
                             "F-C18-1: a request-phase redirect or drop is answered with 200 (open finding)"],
     },
     "C06": {
-        "engines": [{"name": "conc", "quick": 60, "thorough": 1500, "shards": 4, "race": True},
+        "engines": [{"name": "conc", "quick": 60, "thorough": 1500, "shards": 4, "race": True, "search_n": 40},
                     {"name": "tfid", "quick": 6000, "thorough": 200000, "shards": 4, "race": True}],
         "nontrivial": lambda l, v: "mismatch=0" in l or "|||" in l,
         "rule": "conc (binary built with -race): a generated rule set (profiles ctl/cache/acct/api; every other scenario adds a "
                 "rule with three static exclusions whose targets are removed at run time by only some requests) with three "
-                "request variants; each variant alone on a fresh WAF gives the expected outcome; then 4-15 goroutines x 20-79 "
+                "request variants (two scenarios in three also carry an @ipMatch rule over four networks and an @pm rule over four phrases, the "
+                "variants hitting different, not the first, entries: operators are built once and shared by all transactions); each variant "
+                "alone on a fresh WAF gives the expected outcome; then 4-15 goroutines x 20-79 "
                 "transactions on ONE shared WAF while two goroutines keep building, using and closing WAFs with the same "
                 "patterns (shared memoize cache). Every concurrent outcome must equal the sequential one, the race detector "
                 "must stay silent, nothing may panic; the sequential outcome of variant 0 is also compared with the Lean engine "
@@ -362,22 +364,31 @@ PROPS = {
     "C15": {
         "engines": [
             {"name": "op", "quick": 120000, "thorough": 4000000, "shards": 8},
+            {"name": "rxm", "quick": 6000, "thorough": 250000, "shards": 8},
         ],
-        "nontrivial": _op_nontrivial,
+        "nontrivial": lambda l, v: _op_nontrivial(l, v) or (l.startswith("rxm ") and "1" in l.split(" => ")[1].split(" caps=")[0]),
         "rule": "op: (operator, argument, value) triples — phrases at the very start/end of the value and one byte short, "
                 "numeric strings at the int64 boundaries and malformed, byte ranges touching 0/255 and malformed, '%' followed "
                 "by every byte value in either nibble position, truncated escapes, invalid UTF-8; @ipMatch: lists of 1-3 IPv4/IPv6 "
                 "networks (bare, /32, /128, random prefix lengths, malformed lengths, IPv4-mapped spellings, odd separators) and "
                 "values near a network in every spelling Go's net package reads (dotted quad, ::ffff:a.b.c.d, ::ffff:hhhh:hhhh, "
                 "0:0:0:0:0:ffff:…, full and compressed IPv6, trailing dotted quad, leading zeros, zones, junk). Non-trivial = the operator "
-                "matched or its factory rejected the argument; distinct = distinct protocol line.",
+                "matched or its factory rejected the argument; distinct = distinct protocol line. rxm: patterns from the regexp/syntax "
+                "grammar of the C11 generator, 85% restricted to what the Lean regex parser reads (literals, classes, Perl classes, "
+                "groups, flag groups (?i) (?s) (?m) (?-i:), alternation, ? * + {n,m} and lazy forms, ^ $ \\A \\z \\b \\B), plus shapes with groups "
+                "that may not take part and with more than nine groups; ~25 inputs per pattern sampled from its language and perturbed. "
+                "Observed: regexp.MatchString of the pattern as written (regex keys), the @rx operator (\"(?sm)\" prefix), and a capturing "
+                "@rx over all inputs in order on one capture store, compared after every evaluation with Go's own submatches 0..9.",
         "modelled": "modelled and proved: streq contains beginsWith endsWith within eq ge gt le lt validateUrlEncoding "
                     "validateUtf8Encoding validateByteRange pm(ASCII phrases) unconditionalMatch noMatch on literal arguments; "
                     "ipMatch as a port of netip.ParseAddr / net.ParseCIDR / IPNet.Contains (To4 canonicalisation). "
+                    "@rx / regex keys: the pattern text is parsed in Lean (lean/Coraza/Model/Regex.lean, fragment of RE2) and matched by a "
+                    "derivative matcher proved exact against the declarative semantics (C15_rx_exact); which groups capture what "
+                    "(leftmost-first submatches) is not modelled: TX.0-9 are compared with Go's regexp as oracle by the harness. "
                     "Parameters (assumed contracts): Aho-Corasick matcher, strings.Contains/HasPrefix/HasSuffix, strconv.Atoi.",
         "assumptions": [
             "Aho-Corasick library: reports a match iff some non-empty pattern is an ASCII-case-insensitive infix",
-            "@rx (Go regexp, RE2) is an oracle, not modelled in this engine (its prefilter is C11)",
+            "@rx: Go's regexp (RE2) is the oracle for submatch positions and for patterns outside the modelled fragment (non-ASCII, \\p, POSIX classes, named groups, binary matcher); its prefilter is C11",
             "macro expansion of operator arguments is modelled in the engine model (C09), not here",
         ],
         "open_statements": [],
